@@ -16,8 +16,18 @@ done
 for f in wrap_fiber_manager wrap_scheduler wrap_fiber; do
   gcc $INST $DEFS $INC -w -c $V/vrt/$f.c -o $OUT/$f.o & pids+=($!)
 done
-for f in core ext_all; do
-  gcc $INST $DEFS $INC -Wall -c $V/drivers/$f.c -o $OUT/drv_$f.o & pids+=($!)
+# module extensions drivers/ext_<mod>.c (all of them, or only those named in $FIBER_EXTS)
+EXTS="core ext_all"
+for src in $V/drivers/ext_*.c; do
+  b=$(basename $src .c)
+  [ "$b" = "ext_all" ] && continue
+  if [ -n "$FIBER_EXTS" ]; then
+    case " $FIBER_EXTS " in *" ${b#ext_} "*) ;; *) continue;; esac
+  fi
+  EXTS="$EXTS $b"
+done
+for f in $EXTS; do
+  gcc $INST $DEFS $INC -Wall -Wno-unused-function -c $V/drivers/$f.c -o $OUT/drv_$f.o & pids+=($!)
 done
 gcc -std=gnu11 -O1 -g -Wall -D_GNU_SOURCE -I$V/vrt -c $V/vrt/vrt.c -o $OUT/vrt.o & pids+=($!)
 gcc -std=gnu11 -O1 -g -Wall -D__SANITIZE_THREAD__=1 $DEFS $INC -c $V/vrt/vrt_fiber.c -o $OUT/vrt_fiber.o & pids+=($!)
